@@ -171,3 +171,35 @@ Qed.
 Theorem escaped_replacement s sr rdef m :
   starts_with [92] (grp0 m) = true -> replacement_text s sr rdef m = iret (escape (tl (grp0 m))).
 Proof. intros H. unfold replacement_text. rewrite H. reflexivity. Qed.
+
+(* ---- a line block that renders anything has consumed the pending Block Attributes ---- *)
+Definition postv {A} (Q : A -> session -> Prop) (m : M A) : Prop :=
+  forall s a s', m s = Ok (a, s') -> Q a s'.
+
+Lemma postv_bind {A B} (Q : B -> session -> Prop) (m : M A) (f : A -> M B) :
+  (forall a, postv Q (f a)) -> postv Q (bind m f).
+Proof.
+  intros Hf s b s' H. unfold bind in H. destruct (m s) as [[a s1]| |]; try discriminate. eapply Hf; eauto.
+Qed.
+
+Definition rendered_consumed (r : option str * reader) (s : session) : Prop :=
+  match fst r with Some (_ :: _) => pending_empty s | _ => True end.
+
+Theorem lineblocks_consume fuel defs : forall rd allowed, postv rendered_consumed (lineblocks_loop fuel defs rd allowed).
+Proof.
+  induction defs as [|d ds IH]; intros rd allowed; simpl.
+  - intros sx ax sx' H. inversion H; subst. exact Logic.I.
+  - destruct (_ && _); [apply IH|].
+    destruct rd as [|cur rest]; [intros sx ax sx' H; discriminate H|].
+    destruct (re_search _ _) as [m|]; [|apply IH].
+    destruct (grp0 m) as [|c0 ?]; [intros sx ax sx' H; discriminate H|].
+    destruct (c0 =? 92); [apply IH|].
+    apply postv_bind. intros [ok rd1]. destruct (negb ok); [apply IH|].
+    apply postv_bind. intros text.
+    destruct text as [|t0 text]; [intros sx ax sx' H; inversion H; subst; exact Logic.I|].
+    intros sx ax sx' H. unfold bind in H.
+    destruct (injectHtmlAttributes (t0 :: text) true sx) as [[text' s1]| |] eqn:E; try discriminate.
+    inversion H; subst. unfold rendered_consumed. cbn [fst].
+    apply inject_consumes in E; [|discriminate].
+    destruct (text' ++ _); auto.
+Qed.
